@@ -81,3 +81,5 @@ fn c10_flow_state_window_queries() {
     kani::cover!(lowest > 0 && highest == 0, "probed but nothing answered yet");
     std::mem::forget(fs);
 }
+
+fn verif_reset_statics() {}
